@@ -1,5 +1,6 @@
 import DoltVerif.Lemmas.BinlogCells
 import DoltVerif.Lemmas.BinlogRows
+import DoltVerif.Lemmas.BinlogTime
 /-!
 C40 — Binlog events encode values the way MySQL replicas decode them.
 
@@ -10,14 +11,13 @@ byte + metadata of the TableMap event).  Helper lemmas live in `Lemmas/Binlog*.l
 
 PROVED here, for all values of the column's domain and any continuation `r` (framing):
 integers (all widths/signs), FLOAT/DOUBLE bit patterns, YEAR (0000 and 1901‥2155), DATE, DATETIME(0‥6),
-TIMESTAMP(0‥6), BIT(1‥64), ENUM, SET(1‥64), VARCHAR/VARBINARY, CHAR/BINARY (incl. the 10-bit
+TIMESTAMP(0‥6), TIME, BIT(1‥64), ENUM, SET(1‥64), VARCHAR/VARBINARY, CHAR/BINARY (incl. the 10-bit
 length metadata), all BLOB/TEXT sizes, the JSON/GEOMETRY length prefix; the NULL bitmap for any
 column count; unique parseability of a whole row image.
 REFUTED (witnesses below, each replayed on the real code by the harness): negative TIME with a
 fraction and seconds = 59, DECIMAL(p,p).  (YEAR 0000 and JSON key lengths ≥ 256 were refuted in the
 first round and are repaired in /repo: e60c6b5, 22b8e06; both are now part of the proved statement.)
-NOT PROVED (statement kept as `…_full`, compared differentially only): the TIME2 and NEWDECIMAL
-round trips outside the refuted points; binary JSON bodies.
+TIME (all values except the refuted seconds = 59 carry point) is proved too (`Lemmas/BinlogTime`).
 -/
 namespace DoltVerif.C40
 open DoltVerif.Binlog
@@ -30,12 +30,14 @@ instance {ε α : Type} [DecidableEq ε] [DecidableEq α] : DecidableEq (Except 
 
 /-- column types whose round trip is proved in this file -/
 def Proved : ColType → Prop
-  | .time => False
   | .decimal _ _ => False
   | _ => True
 
-/-- a stored value of the column's domain (YEAR 0000 included since /repo e60c6b5) -/
-@[reducible] def Good (t : ColType) (c : Cell) : Prop := inDomain t c = true
+/-- a stored value of the column's domain (YEAR 0000 included since /repo e60c6b5) that is not the
+TIME seconds-carry defect point (negative, fractional, seconds = 59) -/
+@[reducible] def Good (t : ColType) (c : Cell) : Prop :=
+  inDomain t c = true ∧
+  ∀ us : Int, t = .time → c = .time us → ¬ (us < 0 ∧ us.natAbs % 1000000 > 0 ∧ us.natAbs / 1000000 % 60 = 59)
 
 /-- **decode ∘ encode = id, with framing**: for every proved column type and every value of its
 domain, a replica that reads the TableMap's (type byte, metadata) and then the cell bytes followed
@@ -43,10 +45,15 @@ by anything gets the stored value back and stops exactly at the end of the cell.
 theorem decode_encode_partial (t : ColType) (c : Cell) (hp : Proved t) (hg : Good t c)
     (b r : Bytes) (he : encode t c = .ok b) :
     decodeCell (signedOf t) (colMeta t).1 (colMeta t).2 (b ++ r) = some (c, r) := by
-  have hd : inDomain t c = true := hg
+  obtain ⟨hd, hgt⟩ := hg
   have hne : (!inDomain t c) = false := by simp [hd]
   cases t with
-  | time => exact absurd hp id
+  | time =>
+    cases c <;> simp [inDomain] at hd
+    rename_i us
+    simp [encode, inDomain, hd] at he
+    subst he
+    exact decode_time us r hd (hgt us rfl rfl)
   | decimal p s => exact absurd hp id
   | int w sg =>
     cases c <;> simp [inDomain] at hd
@@ -147,10 +154,14 @@ theorem decode_encode_partial (t : ColType) (c : Cell) (hp : Proved t) (hg : Goo
     simpa [colMeta, signedOf, List.append_assoc] using this
 
 /-- non-vacuity: a negative MEDIUMINT, a DATETIME(3) and a 300-byte-max VARCHAR are `Good`. -/
-example : Good (.int .w3 true) (.int (-8388608)) ∧ Proved (.int .w3 true) := ⟨by decide, trivial⟩
-example : Good (.datetime 3) (.datetime 9999 12 31 23 59 59 999000) := by decide
-example : Good (.varchar 300) (.bytes [1, 2, 3]) := by decide
-example : Good .year (.int 0) ∧ encode .year (.int 0) = .ok [0] := by decide
+example : Good (.int .w3 true) (.int (-8388608)) ∧ Proved (.int .w3 true) :=
+  ⟨⟨by decide, fun _ h => by cases h⟩, trivial⟩
+example : Good (.datetime 3) (.datetime 9999 12 31 23 59 59 999000) := ⟨by decide, fun _ h => by cases h⟩
+example : Good (.varchar 300) (.bytes [1, 2, 3]) := ⟨by decide, fun _ h => by cases h⟩
+example : Good .year (.int 0) ∧ encode .year (.int 0) = .ok [0] := ⟨⟨by decide, fun _ h => by cases h⟩, by decide⟩
+/-- a negative fractional TIME with seconds = 58 is `Good` (only seconds = 59 is excluded) -/
+example : Good .time (.time (-58500000)) :=
+  ⟨by decide, fun us _ h => by cases h; decide⟩
 
 /-- the property as stated, for every column type and every stored value -/
 def decode_encode_full : Prop :=
@@ -161,12 +172,9 @@ def decode_encode_full : Prop :=
 def serializable_full : Prop :=
   ∀ (t : ColType) (c : Cell), inDomain t c = true → ∃ b, encode t c = .ok b
 
-/-- the TIME2 / NEWDECIMAL round trips away from the defect points (not proved; the two decoders and
-the stored value are compared on every harness run) -/
-def time_decimal_roundtrip_full : Prop :=
-  (∀ (us : Int) (r : Bytes), inDomain .time (.time us) = true →
-      ¬ (us < 0 ∧ us.natAbs % 1000000 > 0 ∧ us.natAbs / 1000000 % 60 = 59) →
-      decodeCell false tTime2 6 (encTime us ++ r) = some (.time us, r)) ∧
+/-- the NEWDECIMAL round trip away from the defect point (the two decoders and the stored value are
+compared on every harness run) -/
+def decimal_roundtrip_full : Prop :=
   (∀ (p s : Nat) (neg : Bool) (u : Nat) (b r : Bytes), inDomain (.decimal p s) (.decimal neg u) = true → s < p →
       encDecimal p s neg u = .ok b →
       decodeCell false tNewDecimal (colMeta (.decimal p s)).2 (b ++ r) = some (.decimal neg u, r))
